@@ -154,6 +154,11 @@ func ParseExpandedNodeID(s string, ns []string) (*ExpandedNodeID, error) {
 		nsval, idval = "ns=0", p[0]
 	case 2:
 		nsval, idval = p[0], p[1]
+		// the namespace is optional (ns=0) and a string identifier may
+		// contain a ';', e.g. the string form of NewStringNodeID(0, "a;b")
+		if strings.HasPrefix(s, "s=") {
+			nsval, idval = "ns=0", s
+		}
 	}
 
 	// parse namespace
